@@ -221,6 +221,21 @@ def run(chk):
         chk.case(nontrivial_key=("table", name))
         if real != ("ok", want) or via != ("ok", want):
             chk.violation(f"C05|pcDelta|table-{name}", f"pcDelta on a TCR table ({name}) = {real}, expected {want}", {"table": name})
+    # paired chains whose residues slide across the pair (the paired distance is the SUM of the chain distances), default metric and
+    # explicitly weighted paired metrics
+    from Levenshtein import distance as levd2
+    slide = pd.DataFrame({"CDR3A": ["CAVF", "CAV", "CAVRDGNT", "CAVRD", "CAAF"], "CDR3B": ["CASF", "FCASF", "CASSLGF", "GNTCASSLGF", "CASF"]}, index=[4, 8, 1, 5, 2])
+    for label_s, metric_s, wa_, wb_ in (("default", None, 1, 1), ("alpha_weight=3", Cdr3Levenshtein(alpha_weight=3), 3, 1),
+                                        ("beta_weight=2", Cdr3Levenshtein(beta_weight=2), 1, 2), ("positional (1,1,1,2,5)", Cdr3Levenshtein(1, 1, 1, 2, 5), 2, 5)):
+        kw_s = {} if metric_s is None else {"metric": metric_s}
+        real = core.call_real(lambda: [int(v) for v in ds.pcDelta(slide, bins=list(range(0, 60)), normalize=False, **kw_s)])
+        vals_s = [wa_ * levd2(slide.iloc[i]["CDR3A"], slide.iloc[j]["CDR3A"]) + wb_ * levd2(slide.iloc[i]["CDR3B"], slide.iloc[j]["CDR3B"])
+                  for i in range(len(slide)) for j in range(i + 1, len(slide))]
+        want_s = [sum(1 for v in vals_s if (b_ <= v < b_ + 1) or (b_ == 58 and v == 59)) for b_ in range(59)]
+        chk.case(nontrivial_key=("table-sliding", label_s))
+        if real != ("ok", want_s):
+            chk.violation(f"C05|pcDelta|paired-sliding-{label_s}", f"pcDelta on a paired table ({label_s}) = {str(real)[:200]}, the weighted sum of the chain distances gives "
+                          f"{[i for i, v in enumerate(want_s) if v]} (non-empty bins)", {"CDR3A": list(slide["CDR3A"]), "CDR3B": list(slide["CDR3B"]), "metric": label_s})
     # tuple legacy input
     real = core.call_real(lambda: [int(v) for v in ds.pcDelta((list(full["CDR3A"]), list(full["CDR3B"])), bins=list(range(0, 8)), normalize=False)])
     via = core.call_real(lambda: [int(v) for v in ds.pcDelta(full, bins=list(range(0, 8)), normalize=False)])
